@@ -200,6 +200,17 @@ theorem locate_lib (cfg : ECfg) (l : LibTpl) (pos : Nat) (h : cfg.libs = [l]) (h
     cfg.locate pos = (l.src, pos - l.base) := by
   simp [ECfg.locate, h, h1, h2]
 
+/-- **C12 (a failure inside a macro of another template)**: the record shows the text, line and column *in that template's
+source* — the offset from the library's base position — not in the source of the template being rendered -/
+theorem C12_lib_record (cfg : ECfg) (l : LibTpl) (body : Str) (ex : Exc) (pos len : Nat) (hl : cfg.libs = [l])
+    (h1 : isSubclass cfg ex.cls ["Exception"] = true) (h2 : ex.cls ≠ "Exception") (h3 : ex.cls ≠ "BaseException")
+    (hp1 : l.base ≤ pos) (hp2 : pos < l.base + l.src.length + 1) :
+    errorRecords cfg body ex (some (pos, len)) =
+      [{ text := (l.src.drop (pos - l.base)).take len,
+         line := (Tok.location l.src { str := [], pos := pos - l.base }).1,
+         col := (Tok.location l.src { str := [], pos := pos - l.base }).2 }] := by
+  rw [C12_record cfg body ex pos len h1 h2 h3, locate_lib cfg l pos hl hp1 hp2]
+
 /-- **C12 (outside the Exception hierarchy)**: KeyboardInterrupt, SystemExit … get no records: they are
 not re-typed (the behaviour of /repo after the D-12a fix) -/
 theorem C12_base_exception_untouched (cfg : ECfg) (body : Str) (ex : Exc) (tok : Option (Nat × Nat))
